@@ -541,6 +541,20 @@ def run(tape):
                 for v in violations:
                     v["detail"].update(finding=fkey, observations_consistent_with_model=mref.desc)
                 break
+        if (violations and all(v["detail"].get("finding") is None and v["clause"] in ("uniformity-chi2", "cell-never-hit") for v in violations)
+                and isinstance(reg, R.IntersectionRegion) and reg.sampler is None):
+            # same known defect, seen through its mechanism: which interpolated polyline points pass the polyline's exact
+            # containsPoint is rounding noise (the model's own reference points need not round the same way), so when a
+            # sizeable share of the polyline operand's own draws fails its own containsPoint, uniformity cannot be judged
+            for x in (A, B):
+                if isinstance(x.reg, R.PolylineRegion):
+                    Q = draw_batch(x.reg, 300, SeededRNG(seed), seed, 0, {})[0]
+                    inexact = sum(not x.reg.containsPoint(tuple(float(c) for c in q)) for q in Q)
+                    if len(Q) and inexact >= 0.05 * len(Q):
+                        for v in violations:
+                            v["detail"].update(finding="generic-intersection-rejects-inexact-polyline-samples",
+                                               polyline_draws_failing_own_containsPoint=[int(inexact), len(Q)])
+                        break
         grid = reg if isinstance(reg, R.GridRegion) else A.reg if op in ("intersect", "difference") else None
         if isinstance(grid, R.GridRegion) and len(P):
             # a point drawn from the grid (or from grid ∩ B / grid - B) is an exact free-cell centre, so the grid's own
